@@ -120,7 +120,14 @@ impl Case {
         match &self.px {
             Px::Seeded { stratum, seed } => {
                 if self.forward {
-                    expand_rgb(*stratum, *seed, self.w * self.h)
+                    let mut px = expand_rgb(*stratum, *seed, self.w * self.h);
+                    if seed % 3 == 0 {
+                        // related neighbours; feedback = the library's HSL triple of the previous pixel reused as RGB
+                        let fb = |p: [f32; 3]| -> Option<[f32; 3]> { LinearRgb::new(vec![p], 1, 1).ok().map(|l| Hsl::from(l).data()[0]) };
+                        let dom = |p: [f32; 3]| -> bool { p.iter().all(|x| x.is_finite() && *x >= 0.0 && *x <= 1.0) };
+                        correlate_px(&mut px, *seed, Some(&fb), &dom);
+                    }
+                    px
                 } else {
                     expand_hsl_anchor(*seed, self.w * self.h)
                 }
@@ -135,7 +142,10 @@ impl Case {
 
 pub fn strategy() -> BoxedStrategy<Case> {
     (prop::bool::weighted(0.85), 0u8..7, any::<u64>(), 1usize..=32, 1usize..=8)
-        .prop_map(|(forward, stratum, seed, w, h)| Case { forward, w, h, px: Px::Seeded { stratum, seed } })
+        .prop_map(|(forward, stratum, seed, w, h)| {
+            let (w, h) = if seed % 4 == 1 { shape_from(seed, 32, 8) } else { (w, h) };
+            Case { forward, w, h, px: Px::Seeded { stratum, seed } }
+        })
         .boxed()
 }
 
@@ -298,4 +308,4 @@ pub fn replay(v: &Value) -> Result<(), String> {
     check(&case, &mut Stats::new()).map_err(|v| v.message)
 }
 
-pub const RULE: &str = "cases = w x h images of linear-RGB pixels of [0,1]^3 built by construction from 7 strata (uniform; per-sextant: ordering of R,G,B chosen among the 6 permutations, then max/min/mid; near ties mid = max-e / min+e with e log-uniform 1e-8..1e-2; greys and near-greys with chroma 1e-7..1e-2; extreme lightness within 1e-5 of 0/1; lattice {0,.5,1}; exact two-channel ties), and HSL anchor images (H in [0,360) incl. multiples of 60 and 360-ulp, S in [0,1], L in {0,1}), generated by proptest, plus an enumerated RGB lattice; oracle = f64 hexcone model with the statement's tolerances and ranges, round trip within 1e-5, L=0 -> black, L=1 -> white; non-trivial = image with a pixel of chroma >= 0.01 (or any anchor image); distinct = by hash of pixel bits";
+pub const RULE: &str = "cases = w x h images of linear-RGB pixels of [0,1]^3 built by construction from 7 strata, a third of the images with related neighbours (equal / partly equal / rotated / fed-back pixels), single-pixel and tiny images over-represented (uniform; per-sextant: ordering of R,G,B chosen among the 6 permutations, then max/min/mid; near ties mid = max-e / min+e with e log-uniform 1e-8..1e-2; greys and near-greys with chroma 1e-7..1e-2; extreme lightness within 1e-5 of 0/1; lattice {0,.5,1}; exact two-channel ties), and HSL anchor images (H in [0,360) incl. multiples of 60 and 360-ulp, S in [0,1], L in {0,1}), generated by proptest, plus an enumerated RGB lattice; oracle = f64 hexcone model with the statement's tolerances and ranges, round trip within 1e-5, L=0 -> black, L=1 -> white; non-trivial = image with a pixel of chroma >= 0.01 (or any anchor image); distinct = by hash of pixel bits";
